@@ -120,6 +120,9 @@ Apply(b, o) ==
     \* GenericBuilder::extend_claims with one entry: a plain value / a boxed claim object
     [] o.op = "extend"    -> GSet(b, o.k, o.v)
     [] o.op = "extendw"   -> GSet(b, o.k, "w" \o o.v)
+    \* extend_claims with a batch of two entries (both custom keys): every entry of the batch replaces
+    \* what the builder held, whatever the sizes of the two maps
+    [] o.op = "extend2"   -> GSet(GSet(b, "ca", o.v), "cb", o.v)
     [] o.op = "ack"       -> Ack(b)
     [] o.op = "footer"    -> SetFooter(b, o.v)
     [] o.op = "assertion" -> SetAssertion(b, o.v)
